@@ -25,6 +25,10 @@ import (
 const (
 	idA = "a1a1a1a1a1a1a1a1a1a1a1a1a1a1a1a1a1a1a1a1a1a1a1a1a1a1a1a1a1a1a1a1"
 	idB = "b2b2b2b2b2b2b2b2b2b2b2b2b2b2b2b2b2b2b2b2b2b2b2b2b2b2b2b2b2b2b2b2"
+	// near identities: equal length, same first and last bytes, different in the middle
+	idN1 = "c5c6000000000000000000000000000000000000000000000000000000001112"
+	idN2 = "c5c6000000000000000000000000000100000000000000000000000000001112"
+	idN3 = "c5c6ffffffffffffffffffffffffffffffffffffffffffffffffffffffff1112"
 )
 
 func wide(id string) string { return id + strings.Repeat("00", 20) }
@@ -39,7 +43,8 @@ type caseJ struct {
 
 func (c *caseJ) key() string { return fmt.Sprintf("%+v/%+v", c.Cfg, c.Ops) }
 
-// idents: k = 1, 2: that many distinct identities; k = 3: [A, A, B]; k = 4: [A, A] - a trigger
+// idents: k = 1, 2: that many distinct identities; k = 5, 6: two / three NEAR identities (same
+// length, same first and last bytes); k = 3: [A, A, B]; k = 4: [A, A] - a trigger
 // may name the same identity preimage twice (keypers sort, they never deduplicate), so the
 // lists are non-decreasing, not strictly increasing.
 func idents(fl string, k int) []string {
@@ -49,6 +54,10 @@ func idents(fl string, k int) []string {
 		ids = []string{idA, idA, idB}
 	case 4:
 		ids = []string{idA, idA}
+	case 5:
+		ids = []string{idN1, idN2}
+	case 6:
+		ids = []string{idN1, idN2, idN3}
 	default:
 		ids = []string{idA, idB}[:k]
 	}
@@ -255,6 +264,21 @@ func randomSchedule(r *vh.RNG, fl string, n, t, nid int) *caseJ {
 // the keys messages are delivered; then every keyper is triggered for both identities (the
 // key of the first one exists by then) and those messages are delivered.
 func twoRounds(r *vh.RNG, fl string, n, t int) *caseJ {
+	return rounds(r, fl, n, t, 2, [][]int{{0}, {0, 1}}, "rounds")
+}
+
+// nearRounds: consecutive decryption rounds in the same processes whose identities are near
+// each other (same length, same first and last bytes, different middle), in either order, and
+// a last round naming all of them - anything keyed by an abbreviation of the identity collides.
+func nearRounds(r *vh.RNG, fl string, n, t int, reverse bool) *caseJ {
+	sel := [][]int{{0}, {1}, {2}, {0, 1, 2}}
+	if reverse {
+		sel = [][]int{{2}, {1}, {0}, {0, 1, 2}}
+	}
+	return rounds(r, fl, n, t, 6, sel, "near-rounds")
+}
+
+func rounds(r *vh.RNG, fl string, n, t, kind int, sels [][]int, name string) *caseJ {
 	var ops []g.SimOp
 	round := func(sel []int, slot, txp int64) {
 		var evs []event
@@ -286,10 +310,11 @@ func twoRounds(r *vh.RNG, fl string, n, t int) *caseJ {
 		}
 		ops = append(ops, g.SimOp{K: "K"})
 	}
-	round([]int{0}, g.SimSlot, g.SimTxp)
-	round([]int{0, 1}, g.SimSlot+1, g.SimTxp+1)
-	return &caseJ{Cfg: g.SimConfig{Flavour: fl, N: n, T: t, Idents: idents(fl, 2)}, Ops: ops, Complete: true, Rounds: true,
-		Origin: fmt.Sprintf("rounds:%s:n=%d,t=%d", fl, n, t)}
+	for i, sel := range sels {
+		round(sel, g.SimSlot+int64(i), g.SimTxp+int64(i))
+	}
+	return &caseJ{Cfg: g.SimConfig{Flavour: fl, N: n, T: t, Idents: idents(fl, kind)}, Ops: ops, Complete: true, Rounds: true,
+		Origin: fmt.Sprintf("%s:%s:n=%d,t=%d", name, fl, n, t)}
 }
 
 // partialSchedule: an arbitrary prefix-like schedule (not everything is delivered): only the
@@ -405,7 +430,7 @@ func main() {
 	run := vh.Start("Verif.Corr.C03", 60)
 	defer run.Finish()
 	run.SetPreamble("From Verif Require Import Model.EpochKG Model.EpochKGLabels Model.EpochKGHandler Model.GossipNet.\nOpen Scope N_scope.")
-	run.Rule = "schedules on n real handler stacks per flavour: (core, n=3, t=2, one identity) all interleavings of the three triggers and six share deliveries up to renaming of the nodes, keys messages delivered lazily (keys messages delivered lazily; thorough: eagerly as well), all interleavings with two triggered keypers; all interleavings with two triggered keypers whose trigger names the same identity twice; sampled complete schedules (one or two identities, [A, A, B], [A, A]) with losses (up to n-t share messages per receiver), duplicates, repeated triggers for core / service / Gnosis (+ access node), n <= 5, one or two identities; sampled partial schedules; sampled two-round schedules (every keyper triggered for the first identity, then for both); non-trivial = at least one keys message was published; distinct by canonical rendering of configuration and schedule"
+	run.Rule = "schedules on n real handler stacks per flavour: (core, n=3, t=2, one identity) all interleavings of the three triggers and six share deliveries up to renaming of the nodes, keys messages delivered lazily (keys messages delivered lazily; thorough: eagerly as well), all interleavings with two triggered keypers; all interleavings with two triggered keypers whose trigger names the same identity twice; sampled complete schedules (one or two identities, [A, A, B], [A, A]) with losses (up to n-t share messages per receiver), duplicates, repeated triggers for core / service / Gnosis (+ access node), n <= 5, one or two identities; sampled partial schedules; sampled two-round schedules (every keyper triggered for the first identity, then for both); rounds over near identities (same length, same first and last bytes) in both orders and triggers naming two of them; non-trivial = at least one keys message was published; distinct by canonical rendering of configuration and schedule"
 	workers := runtime.NumCPU() / 2
 	if workers < 1 {
 		workers = 1
@@ -486,6 +511,10 @@ func main() {
 			for i, n := 0, run.Scale(25, 400); i < n; i++ {
 				sh := shapes[run.RNG.Intn(len(shapes))]
 				emit(twoRounds(run.RNG.Fork(), fl, sh[0], sh[1]))
+			}
+			for i, n := 0, run.Scale(8, 150); i < n; i++ {
+				emit(nearRounds(run.RNG.Fork(), fl, 3, 2, i%2 == 1))
+				emit(randomSchedule(run.RNG.Fork(), fl, 3, 2, 5)) // one trigger naming two near identities
 			}
 		}
 	}
